@@ -111,6 +111,28 @@ def r4(ctx):
     late = [x for x in sg if any(x in g.reachable([s], follow_exc=False) for s in su)]
     ctx.check("C20.R4", not late, key(f, "group-before-user"), site(f, late[0] if late else su[0]),
               "a group change is reachable after os.setuid(): once the uid is dropped the process may no longer change its group and keeps the master's (root) group", "setgid/initgroups before setuid")
+    # the primary group is really changed: every path on which a group is configured (and differs from the
+    # current one) passes os.setgid -- os.initgroups only sets the *supplementary* list
+    GID, UID = f.params[1], f.params[0]
+    setg = [n for c in calls_to(repo, f, ["os.setgid", "os.setregid", "os.setresgid"]) for n in nodes_with(f, c)]
+
+    def exempt_edges(var, getter):
+        out = []
+        for t in g.tests():
+            if isinstance(t.ast, ast.Name) and t.ast.id == var:
+                out.append((t, "false"))               # nothing configured
+            c = compare(t.ast)
+            if c and getter in norm(t.ast) and var in names(t.ast) and c[1] in (ast.NotEq, ast.Eq):
+                out.append((t, "false" if c[1] is ast.NotEq else "true"))      # already that id
+        return out
+    p = g.path(g.entry, [g.exit], without_nodes=setg, without_edges=exempt_edges(GID, "getgid"), follow_exc=False)
+    ctx.check("C20.R4", bool(setg) and p is None, key(f, "primary-group-set"), site(f),
+              "a path through set_owner_process with a group configured never calls os.setgid(): with initgroups on, only os.initgroups() runs, which sets the supplementary "
+              "groups but leaves the real/effective/saved gid of the master (root) in place", "os.setgid on every path with a (different) gid", path=p and g.fmt_path(p))
+    setu = [n for c in calls_to(repo, f, ["os.setuid", "os.setreuid", "os.setresuid"]) for n in nodes_with(f, c)]
+    p = g.path(g.entry, [g.exit], without_nodes=setu, without_edges=exempt_edges(UID, "getuid"), follow_exc=False)
+    ctx.check("C20.R4", bool(setu) and p is None, key(f, "user-set"), site(f), "a path with a (different) uid configured never calls os.setuid()", "os.setuid on every path with a (different) uid",
+              path=p and g.fmt_path(p))
     # setuid / setgid use the parameters
     for c in calls_to(repo, f, "os.setuid"):
         ctx.check("C20.R4", isinstance(c.args[0], ast.Name) and c.args[0].id == f.params[0], key(f, "setuid-arg"), site(f, c), "os.setuid is not given the uid parameter", "setuid(uid)")
